@@ -25,7 +25,7 @@ CLAIMED = {
                 "Tied to /repo by differential execution (boundary values incl. SIZE_MAX neighbours x element sizes 1-64 x with/"
                 "without xtors, closure over small sizes, random histories, allocation plans) comparing size, capacity, contents, the "
                 "realloc request log and per-slot xtor events under ASan; storage-ledger oracle.",
-        "note": TB + " The harness decides allocation outcomes itself (plan string; every request above 64 KiB fails) and the model driver applies the same rule.",
+        "note": TB + " The harness decides allocation outcomes itself (plan string; every request above 64 KiB fails) and the model driver applies the same rule. Translator tie (tools/c2lean_vec.py, Vec/Tie.lean): set_capacity (overflow guard and byte count), at, reserve, shrink, resize with both xtor loops, swap, clear are regenerated from the C AST on every run with explicit wrap-around only where the clang type is a 64-bit unsigned type and proved equal to the model (21 theorems).",
         "technique": "Lean 4 proof (invariant over operation lists with explicit 64-bit arithmetic, all allocator answers) + model/implementation correspondence check",
     },
     "C10": {
@@ -39,7 +39,7 @@ CLAIMED = {
                 "(closure over short strings incl. embedded NUL, positions/counts from the boundary set, random histories) comparing "
                 "size, capacity, every unit incl. the terminator, results and abort/segv; libc itself is the reference for find/compare "
                 "in the harness; reference-string oracle.",
-        "note": TB + " reserve on a string that holds nothing followed by str() returns storage without a terminator (reserve is outside C10's operation list; generators keep observers away from that state; recorded as an observation in DESIGN section 5).",
+        "note": TB + " Translator tie (Vec/Tie.lean, 80 theorems): the string functions of both instantiations (narrow, wide) incl. the repaired guards of substr_prep, __resize and prep_insert, the NUL-fill and character-fill loops, erase/substr/insert/append are regenerated from the C AST on every run and proved equal to the model; find/compare/str and the strlen-based entry points are not translated. reserve on a string that holds nothing followed by str() returns storage without a terminator (reserve is outside C10's operation list; generators keep observers away from that state; recorded as an observation in DESIGN section 5).",
         "technique": "Lean 4 proof (refinement to a reference sequence over operation lists, explicit 64-bit arithmetic) + model/implementation correspondence check",
     },
     "C16": {
@@ -162,7 +162,7 @@ CLAIMED = {
                 "(bt_history_refines) with every child's parent link pointing back (bt_parent_links_ok), is compared with the real code "
                 "on the same scripts, and __cstl_bintree_rotate / __cstl_bintree_erase are re-translated from the C AST on every run "
                 "with kernel-checked `translation = model` ties.",
-        "note": TB + " cstl_bintree_insert (pointer-to-pointer) and find are tied to the link-level model by correspondence only; bintree refinements assume the (unused) colour field is black.",
+        "note": TB + " tools/c2lean_tree.py additionally regenerates cstl_bintree_insert (pointer-to-pointer), find, slide/next, the full erase and the foreach recursion from the C AST on every run, with kernel-checked ties to the link-level model (Tie2: 25 theorems; form: model finishes with r => translation finishes with r); the comparator and the node/element offset helpers are primitives; bintree refinements assume the (unused) colour field is black.",
         "technique": "Lean 4 proof (structural induction, refinement to a multiset spec over operation lists) + model/implementation correspondence check",
     },
     "C02": {
@@ -177,7 +177,7 @@ CLAIMED = {
                 "modelled at link level and proved to refine the functional model for every history (rb_history_refines, never a NULL "
                 "dereference: rb_history_no_stop), with every child's parent link pointing back at its parent (rb_parent_links_ok); "
                 "compared with the real code on the same scripts (links marker exact).",
-        "note": TB + " The red-black fix-up functions are tied to the link-level model by correspondence only (the translator covers rotate and the bintree erase surgery).",
+        "note": TB + " cstl_rbtree_fix_insertion, the insert loop, cstl_rbtree_fix_deletion, the erase loop with its stand-in node, and the whole of cstl_rbtree_insert/erase are regenerated from the C AST on every run (child-selector function pointers become a direction parameter) and tied to the link-level model by kernel-checked theorems (TreeL.Tie2).",
         "technique": "Lean 4 proof (inductive invariant over operation lists) + colour-exact model/implementation correspondence check",
     },
     "C08": {
@@ -231,7 +231,7 @@ CLAIMED = {
                 "Tied to /repo by differential execution (closure over all shapes up to a small size, drained after every transition, "
                 "all short histories, random histories to 1000 live elements) comparing the level-order dump with ids, results, size; "
                 "the harness checks every parent link and completeness; reference-multiset oracle.",
-        "note": TB + " cstl_heap_promote_child's six-neighbour relinking is translated from the C AST on every run and proved to exchange the two nodes' positions with consistent parent links (heap_promote_child_refines + promoteChild_tie); the rest of heap.c is functional-model + correspondence (links checked by the harness on every explored state); theorems carry size+1 < 2^64.",
+        "note": TB + " cstl_heap_promote_child's six-neighbour relinking is translated from the C AST on every run and proved to exchange the two nodes' positions with consistent parent links (heap_promote_child_refines + promoteChild_tie); the whole of heap.c is additionally modelled at link level (lean/Cstl/HeapL: find/push/pop/get/clear on l/r/p links) and proved to refine the functional model for every history with consistent parent links (heap_history_refines, heap_parent_links_ok), compared with the real code on the same scripts, and cstl_fls, cstl_heap_find/push/get/pop are regenerated from the C AST on every run and tied by kernel-checked equalities (HeapL.Tie); unsigned-int truncation of slot numbers is not modelled; theorems carry size+1 < 2^64.",
         "technique": "Lean 4 proof (invariant by induction over operation lists) + model/implementation correspondence check",
     },
     "C17": {
@@ -269,8 +269,8 @@ CLAIMED = {
                 "many lists. Tied to /repo on every run by executing model and real code on the same scripts (closure of all reference "
                 "states in a small scope + seeded random histories) comparing forward walk, backward walk, size and results; an "
                 "independent reference-sequence oracle decides concrete violations.",
-        "note": TB + " sort is modelled on the sequence read from the links followed by a relink (its temporary heads live on the C stack).",
-        "technique": "Lean 4 proof (induction over operation lists, link-level refinement) + model/implementation correspondence check",
+        "note": TB + " Translator ties (tools/c2lean.py, tools/c2lean_lists.py) regenerate 16+ dlist functions incl. reverse/clear loops, sort, foreach, find, swap from the C AST on every run; the link-level sort (temporary heads = fresh scratch addresses, parameter) is proved to refine the sequence-level sort (DList.SortL.sortL_refines) and the translated C sort is proved to sort (c_sort_spec). The comparator is a pure function; foreach/find ties are implications (translated loop finishes => model result).",
+        "technique": "Lean 4 proof (induction over operation lists, link-level refinement) + C-AST translator ties + model/implementation correspondence check",
     },
     "C13": {
         "design_ref": "DESIGN.md 4/C13",
@@ -281,8 +281,8 @@ CLAIMED = {
                 "(induction; no bound). Tied to /repo on every run by executing the compiled model and the real code on the same "
                 "scripts (closure of all reference states in a small scope + seeded random histories) and comparing every traversal, "
                 "tail, count and result; an independent reference-sequence oracle decides concrete violations.",
-        "note": TB + " sort is modelled on the sequence read from the links followed by a relink (its temporary heads live on the C stack).",
-        "technique": "Lean 4 proof (induction over operation lists, link-level refinement) + model/implementation correspondence check",
+        "note": TB + " Translator ties regenerate 13+ slist functions incl. reverse/clear loops, sort, foreach, swap from the C AST on every run; the link-level sort (temporary heads = fresh scratch addresses) is proved to refine the sequence-level sort (SList.SortL.sortL_refines), the translated C sort is proved to sort (c_sort_spec), foreach presents the sequence whatever the visit function does to the visited element (foreachP_spec).",
+        "technique": "Lean 4 proof (induction over operation lists, link-level refinement) + C-AST translator ties + model/implementation correspondence check",
     },
 }
 
